@@ -20,6 +20,7 @@ def run(seed):
     res={}
     own=seed.split('-')[0]
     order=[own]+[p for p in props if p!=own]
+    if os.environ.get('ONLY_OWN'): order=[own]+[p for p in os.environ.get('ALSO','').split() if p]
     for p in order:
         o=subprocess.run([os.environ.get('VCHECK_BIN',f'{V}/bin/vcheck'),'-prop',p,'-tier','quick','-repo',wt,'-verif',vd],capture_output=True,text=True)
         lines=[l.strip() for l in o.stdout.splitlines() if l.strip().startswith(('violation:','undecided:'))]
@@ -33,7 +34,8 @@ with cf.ThreadPoolExecutor(max_workers=int(os.environ.get('WORKERS','5'))) as ex
         out[seed]=res
         if 'error' in res: print(seed,'ERROR',res['error']); continue
         caught=[p for p,r in res.items() if r['rc']==1]
-        print(seed,'caught by',caught or 'NOTHING',flush=True)
+        print(seed,'caught by',caught or 'NOTHING', '|', res.get(seed.split('-')[0],{}).get('first','')[:260], flush=True)
+if os.environ.get('ONLY_OWN'): sys.exit(0)
 old={}
 if os.path.exists(f'{V}/seeded/MATRIX.json') and sys.argv[1:]:
     old=json.load(open(f'{V}/seeded/MATRIX.json'))
